@@ -24,6 +24,16 @@ Inductive qop :=
 | QRemVars (s : nat) (t : etarget) (vs : list nat)      (* Expression::remove_variables *)
 | QSubstE (s : nat) (t : etarget) (v : nat) (m c : Qc)  (* Expression::substitute_variable *)
 | QFixVars (s dst : nat) (vs : list nat) (asg : list Qc)   (* fix_variables(first,last,assignment) into dst *)
+| QSetQ (s : nat) (t : etarget) (u v : nat) (b : Qc)       (* Expression::set_quadratic *)
+| QFixE (s : nat) (t : etarget) (v : nat) (a : Qc)         (* Expression::fix_variable *)
+| QScale (s : nat) (t : etarget) (k : Qc)                  (* Expression::scale / Constraint::scale *)
+| QRemConsIf (s par : nat)                                 (* remove_constraints_if(num_variables % 2 == par) *)
+| QAddConCopyRaw (s : nat) (lin : list Qc) (quad : list lqterm) (off : Qc) (mapping : list nat) (sense : nat) (rhs : Qc)
+| QSense (s c sense : nat)
+| QRhs (s c : nat) (rhs : Qc)
+| QClearCon (s c : nat)                                    (* Constraint::clear: expression AND attributes *)
+| QEnergy (s : nat) (t : etarget) (x : list Qc)            (* reads: compared through the returned value *)
+| QDisjoint (s : nat) (t1 t2 : etarget)
 | QCopy (a b : nat)
 | QMoveClear (a b : nat)               (* a takes b's value, b is then cleared *)
 | QSwap (a b : nat)
@@ -35,6 +45,69 @@ Definition edit (t : etarget) (f : mexpr -> mexpr) (q : mcqm) : mcqm :=
   | EObj => cqm_edit_obj f q
   | ECon c => cqm_edit_con c f q
   end.
+
+Definition binspin (t : vartype) : bool := match t with BINARY | SPIN => true | _ => false end.
+
+(* Expression::set_quadratic: both variables are enforced BEFORE the base class may throw
+   std::domain_error for a BINARY/SPIN self-loop, so they stay in the expression *)
+Definition m_set_quadratic (vt : nat -> vartype) (u v : nat) (b : Qc) (e : mexpr) : mexpr :=
+  let '(e1, j) := enforce v e in
+  let '(e2, i) := enforce u e1 in
+  if (i =? j)%nat && binspin (vt (nth i (e_vars e2) 0%nat)) then e2
+  else mkE (e_vars e2) (e_idx e2) (e_lin e2)
+           ((i, j, b) :: filter (fun t => negb (((fst (fst t) =? i) && (snd (fst t) =? j) || (fst (fst t) =? j) && (snd (fst t) =? i))%nat))
+                                (e_quad e2))
+           (e_off e2).
+
+(* Expression::fix_variable: neighbourhood (self-loop included) to the linear biases, then
+   offset += a * linear(v), then the variable leaves this expression only *)
+Definition m_fix_variable (v : nat) (a : Qc) (e : mexpr) : mexpr :=
+  match idx_find v (e_idx e) with
+  | None => e
+  | Some i =>
+      let lin1 := fold_left (fun l t =>
+                               let x := fst (fst t) in let y := snd (fst t) in let w := snd t in
+                               if ((x =? i) && (y =? i))%nat then Expr.upd_nth i (fun z => z + w * a) l
+                               else if (x =? i)%nat then Expr.upd_nth y (fun z => z + w * a) l
+                               else if (y =? i)%nat then Expr.upd_nth x (fun z => z + w * a) l
+                               else l) (e_quad e) (e_lin e) in
+      m_remove_variable v (mkE (e_vars e) (e_idx e) lin1 (e_quad e) (e_off e + a * nth i lin1 0))
+  end.
+
+Definition m_scale (k : Qc) (e : mexpr) : mexpr :=
+  mkE (e_vars e) (e_idx e) (map (fun x => x * k) (e_lin e))
+      (map (fun t => (fst t, snd t * k)) (e_quad e)) (e_off e * k).
+
+(* Constraint::scale also scales the right-hand side and flips LE (0) / GE (1) for a negative factor *)
+Definition con_scale (k : Qc) (c : mcon) : mcon :=
+  let neg := negb (Qle_bool 0 k) in
+  mkMC (m_scale k (mc_e c))
+       (if neg then match mc_sense c with 0%nat => 1%nat | 1%nat => 0%nat | x => x end else mc_sense c)
+       (mc_rhs c * k) (mc_weight c) (mc_pen c) (mc_mark c).
+
+Definition edit_con (c : nat) (f : mcon -> mcon) (q : mcqm) : mcqm :=
+  mkM (m_info q) (m_obj q) (Expr.upd_nth c f (m_cons q)).
+
+Definition model_energy (e : mexpr) (x : list Qc) : Qc :=
+  e_off e
+  + qsum (map (fun iv => nth (fst iv) (e_lin e) 0 * nth (snd iv) x 0) (combine (seq 0 (length (e_vars e))) (e_vars e)))
+  + qsum (map (fun t => snd t * nth (nth (fst (fst t)) (e_vars e) 0%nat) x 0 * nth (nth (snd (fst t)) (e_vars e) 0%nat) x 0)
+              (e_quad e)).
+
+Definition target_expr (q : mcqm) (t : etarget) : mexpr :=
+  match t with EObj => m_obj q | ECon c => mc_e (nth c (m_cons q) (new_con e_empty 2%nat 0)) end.
+
+Definition disjointb (a b : mexpr) : bool :=
+  forallb (fun v => negb (existsb (Nat.eqb v) (e_vars b))) (e_vars a).
+
+(* Constraint::is_onehot *)
+Definition is_onehot (vt : nat -> vartype) (c : mcon) : bool :=
+  match e_quad (mc_e c) with [] => true | _ => false end
+  && (2 <=? length (e_vars (mc_e c)))%nat
+  && (mc_sense c =? 2)%nat
+  && Qc_eqb (e_off (mc_e c)) 0
+  && forallb (fun v => match vt v with BINARY => true | _ => false end) (e_vars (mc_e c))
+  && forallb (fun l => Qc_eqb l (mc_rhs c)) (e_lin (mc_e c)).
 
 (* ConstrainedQuadraticModel::fix_variables (the copying bulk path) and fix_variables_expr:
    old_to_new marks the fixed variables, the others are numbered in order; every expression is
@@ -73,7 +146,11 @@ Definition cqm_fix_variables (vs : list nat) (asg : list Qc) (q : mcqm) : mcqm :
   let o2n := old_to_new n vs in
   let info' := map snd (filter (fun p => negb (existsb (Nat.eqb (fst p)) vs)) (combine (seq 0 n) (m_info q))) in
   let f := fix_expr (vt_info info') o2n (asg_of vs asg) in
-  mkM info' (f (m_obj q)) (map (fun k => mc_set_e k (f (mc_e k))) (m_cons q)).
+  mkM info' (f (m_obj q))
+      (map (fun k => let k' := mc_set_e k (f (mc_e k)) in
+                     mkMC (mc_e k') (mc_sense k') (mc_rhs k') (mc_weight k') (mc_pen k')
+                          (mc_mark k && is_onehot (vt_info info') k'))
+           (m_cons q)).
 
 Definition qstep (st : qstate) (o : qop) : qstate :=
   match o with
@@ -81,6 +158,27 @@ Definition qstep (st : qstate) (o : qop) : qstate :=
   | QRemVars s t vs => qput st s (edit t (m_remove_variables vs) (qget st s))
   | QSubstE s t v m c => qput st s (edit t (m_substitute v m c) (qget st s))
   | QFixVars s dst vs asg => qput st dst (cqm_fix_variables vs asg (qget st s))
+  | QSetQ s t u v b => let q := qget st s in qput st s (edit t (m_set_quadratic (vt_info (m_info q)) u v b) q)
+  | QFixE s t v a => qput st s (edit t (m_fix_variable v a) (qget st s))
+  | QScale s t k =>
+      match t with
+      | EObj => qput st s (cqm_edit_obj (m_scale k) (qget st s))
+      | ECon c => qput st s (edit_con c (con_scale k) (qget st s))
+      end
+  | QRemConsIf s par =>
+      let q := qget st s in
+      qput st s (mkM (m_info q) (m_obj q)
+                     (filter (fun k => negb ((length (e_vars (mc_e k)) mod 2 =? par)%nat)) (m_cons q)))
+  | QAddConCopyRaw s lin quad off mapping sense rhs =>
+      let q := qget st s in
+      qput st s (mkM (m_info q) (m_obj q)
+                     (m_cons q ++ [new_con (expr_from_copy (vt_info (m_info q)) lin quad off mapping) sense rhs]))
+  | QSense s c sense =>
+      qput st s (edit_con c (fun k => mkMC (mc_e k) sense (mc_rhs k) (mc_weight k) (mc_pen k) (mc_mark k)) (qget st s))
+  | QRhs s c rhs =>
+      qput st s (edit_con c (fun k => mkMC (mc_e k) (mc_sense k) rhs (mc_weight k) (mc_pen k) (mc_mark k)) (qget st s))
+  | QClearCon s c => qput st s (edit_con c (fun _ => new_con e_empty 2%nat 0) (qget st s))
+  | QEnergy _ _ _ | QDisjoint _ _ _ => st
   | QCopy a b => qput st a (qget st b)
   | QMoveClear a b => qput (qput st a (qget st b)) b m_empty
   | QSwap a b => qput (qput st a (qget st b)) b (qget st a)
@@ -88,14 +186,25 @@ Definition qstep (st : qstate) (o : qop) : qstate :=
   | QNop => st
   end.
 
+(* the value a reading call returns *)
+Definition qret (st : qstate) (o : qop) : option Qc :=
+  match o with
+  | QEnergy s t x => Some (model_energy (target_expr (qget st s) t) x)
+  | QDisjoint s t1 t2 =>
+      Some (if disjointb (target_expr (qget st s) t1) (target_expr (qget st s) t2) then 1 else 0)
+  | _ => None
+  end.
+
 (* what the driver printed for one expression / one model *)
 Record eobs := mkEO { eo_vars : list nat; eo_lin : list Qc; eo_quad : list lqterm; eo_off : Qc }.
-Record qobs := mkQO { qo_info : list minfo; qo_obj : eobs; qo_cons : list eobs }.
+Record cobs := mkCO { co_e : eobs; co_sense : nat; co_rhs : Qc; co_weight : option Qc; co_pen : nat; co_mark : bool }.
+Record qobs := mkQO { qo_info : list minfo; qo_obj : eobs; qo_cons : list cobs }.
 
 Definition expr_of_obs (o : eobs) : mexpr :=
   mkE (eo_vars o) (rebuild_idx (eo_vars o)) (eo_lin o) (eo_quad o) (eo_off o).
 Definition cqm_of_obs (o : qobs) : mcqm :=
-  mkM (qo_info o) (expr_of_obs (qo_obj o)) (map (fun e => new_con (expr_of_obs e) 2%nat 0) (qo_cons o)).
+  mkM (qo_info o) (expr_of_obs (qo_obj o))
+      (map (fun c => mkMC (expr_of_obs (co_e c)) (co_sense c) (co_rhs c) (co_weight c) (co_pen c) (co_mark c)) (qo_cons o)).
 
 Definition same_upair (t : lqterm) (i j : nat) : bool :=
   ((fst (fst t) =? i) && (snd (fst t) =? j) || (fst (fst t) =? j) && (snd (fst t) =? i))%nat.
@@ -140,27 +249,40 @@ Definition no_binspin_loops (info : list minfo) (o : eobs) : bool :=
 Definition cqm_agrees (q : mcqm) (o : qobs) : bool :=
   all2 info_eqb (m_info q) (qo_info o)
   && expr_agrees (m_obj q) (qo_obj o)
-  && all2 (fun k e => expr_agrees (mc_e k) e) (m_cons q) (qo_cons o)
+  && all2 (fun k c => expr_agrees (mc_e k) (co_e c)
+                      (* constraint attributes *)
+                      && Nat.eqb (mc_sense k) (co_sense c) && Qc_eqb (mc_rhs k) (co_rhs c)
+                      && option_eqb Qc_eqb (mc_weight k) (co_weight c)
+                      && Nat.eqb (mc_pen k) (co_pen c) && Bool.eqb (mc_mark k) (co_mark c))
+          (m_cons q) (qo_cons o)
   (* oracle on the implementation's own state: the observable parts of ExprInv *)
   && forallb (fun e => expr_ok (length (qo_info o)) (expr_of_obs e) && no_binspin_loops (qo_info o) e)
-             (qo_obj o :: qo_cons o)
+             (qo_obj o :: map co_e (qo_cons o))
   (* and on the model state *)
   && forallb (fun e => expr_ok (length (m_info q)) e) (m_obj q :: map mc_e (m_cons q)).
 
-(* a step: the modelled operation (None = no counterpart: reload the model from the dump) and the dumps *)
-Definition qstepobs := (option qop * list qobs)%type.
+(* a step: the modelled operation (None = no counterpart: reload the model from the dump), the value
+   the call returned (reads), and the dumps *)
+Definition qstepobs := (option qop * option Qc * list qobs)%type.
 Definition qcase := list qstepobs.
+
+Definition ret_ok (m r : option Qc) : bool :=
+  match m, r with
+  | Some a, Some b => Qc_eqb a b
+  | Some _, None => false
+  | None, _ => true
+  end.
 
 Fixpoint qrun (st : qstate) (steps : list qstepobs) : bool :=
   match steps with
   | [] => true
-  | (None, seen) :: rest =>
+  | (None, _, seen) :: rest =>
       forallb (fun o => forallb (fun e => expr_ok (length (qo_info o)) (expr_of_obs e) && no_binspin_loops (qo_info o) e)
-                                (qo_obj o :: qo_cons o)) seen
+                                (qo_obj o :: map co_e (qo_cons o))) seen
       && qrun (map cqm_of_obs seen) rest
-  | (Some o, seen) :: rest =>
+  | (Some o, r, seen) :: rest =>
       let st' := qstep st o in
-      all2 cqm_agrees st' seen && qrun st' rest
+      ret_ok (qret st o) r && all2 cqm_agrees st' seen && qrun st' rest
   end.
 
 Definition qcheck (c : qcase) : bool := qrun qinit c.
@@ -169,8 +291,8 @@ Definition qcheck (c : qcase) : bool := qrun qinit c.
 Fixpoint qfirst_bad (st : qstate) (steps : list qstepobs) (i : nat) : option nat :=
   match steps with
   | [] => None
-  | (o, seen) :: rest =>
-      if qrun st [(o, seen)]
+  | (o, r, seen) :: rest =>
+      if qrun st [(o, r, seen)]
       then qfirst_bad (match o with None => map cqm_of_obs seen | Some o' => qstep st o' end) rest (S i)
       else Some i
   end.
